@@ -784,7 +784,7 @@ func TestReplayJSON(t *testing.T) {
 }
 
 func TestHistories(t *testing.T) {
-	vlib.Check(t, "histories", 8000, 50000, func(t *rapid.T) {
+	vlib.Check(t, "histories", 8000, 300000, func(t *rapid.T) {
 		h := genHistory(t)
 		st := vlib.S()
 		st.Eval("histories")
@@ -800,7 +800,7 @@ func TestHistories(t *testing.T) {
 }
 
 func TestSubscribeOn(t *testing.T) {
-	vlib.Check(t, "subscribeOn", 300, 2000, func(t *rapid.T) {
+	vlib.Check(t, "subscribeOn", 300, 10000, func(t *rapid.T) {
 		c := handlerCase{
 			Cap:  rapid.SampledFrom([]int{-1, 0, 1, 16}).Draw(t, "cap"),
 			Subs: rapid.IntRange(1, 6).Draw(t, "subs"),
@@ -817,7 +817,7 @@ func TestSubscribeOn(t *testing.T) {
 }
 
 func TestConcurrent(t *testing.T) {
-	vlib.Check(t, "concurrent", 400, 2000, func(t *rapid.T) {
+	vlib.Check(t, "concurrent", 400, 10000, func(t *rapid.T) {
 		c := genConc(t)
 		st := vlib.S()
 		st.Eval("concurrent")
